@@ -308,14 +308,19 @@ func (s *Segment) writePtr(off address, src Ptr, forceCopy bool) error {
 			return nil
 		}
 		if forceCopy || src.seg.msg != s.msg || st.flags&isListMember != 0 {
-			newSeg, newAddr, err := alloc(s, st.size.totalSize())
+			// An element of a primitive list viewed as a struct has a
+			// data section smaller than a word; a standalone struct
+			// cannot.
+			sz := st.size
+			sz.DataSize = sz.DataSize.padToWord()
+			newSeg, newAddr, err := alloc(s, sz.totalSize())
 			if err != nil {
 				return annotate(err).errorf("write pointer: copy")
 			}
 			dst := Struct{
 				seg:        newSeg,
 				off:        newAddr,
-				size:       st.size,
+				size:       sz,
 				depthLimit: maxDepth,
 				// clear flags
 			}
